@@ -223,6 +223,12 @@ pub(crate) fn is_plain_value_safe(s: &str, yaml_12: bool, in_flow: bool) -> bool
     }
 
     if in_flow {
+        // The reader takes a '-' that follows a blank and precedes ',' ']' '}' for the start of
+        // a new token, so a flow entry must not end in " -".
+        let n = bytes.len();
+        if n >= 2 && bytes[n - 1] == b'-' && bytes[n - 2] == b' ' {
+            return false;
+        }
         // In flow style, commas and brackets/braces are structural.
         // In values, ':' is allowed, but '#' would start a comment so still disallow '#'.
         !contains_any_or_is_control(s, &[',', '[', ']', '{', '}', '#'])
